@@ -9,6 +9,7 @@ PFH = "backend/PatternFormatter.h"
 TFH = "backend/TimestampFormatter.h"
 SFH = "backend/StringFromTime.h"
 RSH = "sinks/RotatingSink.h"
+CDC = "core/Codec.h"
 CASES = [
  # ---------------- C01
  dict(name="c01-commit_write-relaxed", ids=["C01"], rule="C01.R1b", subs=[(B, "_atomic_writer_pos.store(_writer_pos, std::memory_order_release)", "_atomic_writer_pos.store(_writer_pos, std::memory_order_relaxed)")]),
@@ -914,4 +915,81 @@ CASES = [
 """), ("Logger.h", "#include <atomic>\n", "#include <atomic>\n#include <functional>\n")]),
  dict(name="c11-vector-copy-in-codec", ids=["C11"], rule="C11.R1", subs=[("std/Vector.h", "      for (auto const& elem : arg)\n      {\n        total_size += Codec<T>::compute_encoded_size(conditional_arg_size_cache, elem);", "      for (auto const elem : arg)\n      {\n        total_size += Codec<T>::compute_encoded_size(conditional_arg_size_cache, elem);")]),
  dict(name="c11-size-cache-inline-capacity-reduced", ids=["C11"], rule="C11.R1", subs=[("core/InlinedVector.h", "using SizeCacheVector = InlinedVector<uint32_t, 12>;", "using SizeCacheVector = InlinedVector<uint32_t, 8>;")]),
+
+ # ---------------- C04
+ dict(name="c04-string-decode-reads-size_t", ids=["C04"], rule="C04.R1", subs=[(CDC, """      // for std::string we first need to retrieve the length
+      uint32_t len;""", """      // for std::string we first need to retrieve the length
+      size_t len;""")]),
+ dict(name="c04-cstring-decode-without-nul", ids=["C04"], rule="C04.R1", subs=[(CDC, "      buffer += detail::safe_strnlen(arg) + 1u;", "      buffer += detail::safe_strnlen(arg);")]),
+ dict(name="c04-vector-count-uint32", ids=["C04"], rule="C04.R1", subs=[("std/Vector.h", "    Codec<size_t>::encode(buffer, conditional_arg_size_cache, conditional_arg_size_cache_index, arg.size());", "    Codec<uint32_t>::encode(buffer, conditional_arg_size_cache, conditional_arg_size_cache_index, static_cast<uint32_t>(arg.size()));")]),
+ dict(name="c04-pair-decoded-second-first", ids=["C04"], rule="C04.R1", subs=[("std/Pair.h", """      arg.first = Codec<T1>::decode_arg(buffer);
+      arg.second = Codec<T2>::decode_arg(buffer);
+      return arg;""", """      arg.second = Codec<T2>::decode_arg(buffer);
+      arg.first = Codec<T1>::decode_arg(buffer);
+      return arg;""")]),
+ dict(name="c04-plus-fold-in-size-pass", ids=["C04"], rule="C04.R2a", subs=[(CDC, """  size_t total_sum{0};
+  // Avoid using a fold expression with '+ ...' because we require a guaranteed evaluation
+  // order to ensure that each argument is processed in sequence. This is essential for
+  // correctly populating the conditional_arg_size_cache
+  ((total_sum += Codec<remove_cvref_t<Args>>::compute_encoded_size(conditional_arg_size_cache, args)), ...);
+  return total_sum;""", """  size_t const total_sum = (size_t{0} + ... + Codec<remove_cvref_t<Args>>::compute_encoded_size(conditional_arg_size_cache, args));
+  return total_sum;""")]),
+ dict(name="c04-dynamic-level-before-args", ids=["C04"], rule="C04.R3d", subs=[("Logger.h", """    // encode remaining arguments
+    detail::encode(write_buffer, thread_context->get_conditional_arg_size_cache(), fmt_args...);
+
+    if constexpr (has_dynamic_log_level)
+    {
+      // write the dynamic log level
+      // The reason we write it last is that is less likely to break the alignment in the buffer
+      std::memcpy(write_buffer, &dynamic_log_level, sizeof(dynamic_log_level));
+      write_buffer += sizeof(dynamic_log_level);
+    }
+""", """    if constexpr (has_dynamic_log_level)
+    {
+      std::memcpy(write_buffer, &dynamic_log_level, sizeof(dynamic_log_level));
+      write_buffer += sizeof(dynamic_log_level);
+    }
+
+    // encode remaining arguments
+    detail::encode(write_buffer, thread_context->get_conditional_arg_size_cache(), fmt_args...);
+""")]),
+ dict(name="c04-optional-flag-after-value", ids=["C04"], rule="C04.R1", subs=[("std/Optional.h", """    Codec<bool>::encode(buffer, conditional_arg_size_cache, conditional_arg_size_cache_index, arg.has_value());
+
+    if (arg.has_value())
+    {
+      Codec<T>::encode(buffer, conditional_arg_size_cache, conditional_arg_size_cache_index, *arg);
+    }""", """    if (arg.has_value())
+    {
+      Codec<T>::encode(buffer, conditional_arg_size_cache, conditional_arg_size_cache_index, *arg);
+    }
+    Codec<bool>::encode(buffer, conditional_arg_size_cache, conditional_arg_size_cache_index, arg.has_value());""")]),
+ dict(name="c04-deferred-size-without-alignment-slack", ids=["C04"], rule="C04.R1", subs=[("DeferredFormatCodec.h", """      // If it’s misaligned, the worst-case scenario is when the pointer is off by one byte from an alignment boundary
+      return sizeof(T) + alignof(T) - 1;""", """      return sizeof(T);""")]),
+ dict(name="c04-header-logger-metadata-swapped-on-read", ids=["C04"], rule="C04.R3a", subs=[(BW, """    std::memcpy(&transit_event->macro_metadata, read_pos, sizeof(transit_event->macro_metadata));
+    read_pos += sizeof(transit_event->macro_metadata);
+
+    std::memcpy(&transit_event->logger_base, read_pos, sizeof(transit_event->logger_base));
+    read_pos += sizeof(transit_event->logger_base);
+""", """    std::memcpy(&transit_event->logger_base, read_pos, sizeof(transit_event->logger_base));
+    read_pos += sizeof(transit_event->logger_base);
+
+    std::memcpy(&transit_event->macro_metadata, read_pos, sizeof(transit_event->macro_metadata));
+    read_pos += sizeof(transit_event->macro_metadata);
+""")]),
+ dict(name="c04-noclear-list-includes-cstring", ids=["C04"], rule="C04.R2b", subs=[(CDC, """                                                     std::is_same<remove_cvref_t<Args>, void const*>, is_std_string<remove_cvref_t<Args>>,""", """                                                     std::is_same<remove_cvref_t<Args>, void const*>, is_std_string<remove_cvref_t<Args>>, std::is_same<remove_cvref_t<Args>, char const*>,""")]),
+ dict(name="c04-commit-different-size", ids=["C04"], rule="C04.R4", subs=[("Logger.h", """    // we have enough space in this buffer, and we will write to the buffer
+""", """    // we have enough space in this buffer, and we will write to the buffer
+    if constexpr (sizeof...(Args) > 11) { total_size = (total_size + 7u) & ~size_t{7u}; }
+""")]),
+ dict(name="c04-string_view-stores-pointer", ids=["C04"], rule="C04.R", subs=[(CDC, """      auto const len = static_cast<uint32_t>(arg.length());
+      std::memcpy(buffer, &len, sizeof(len));
+      buffer += sizeof(len);
+      std::memcpy(buffer, arg.data(), len);
+      buffer += len;""", """      auto const len = static_cast<uint32_t>(arg.length());
+      std::memcpy(buffer, &len, sizeof(len));
+      buffer += sizeof(len);
+      if constexpr (std::is_same_v<Arg, std::string_view>) { char const* const p = arg.data(); std::memcpy(buffer, &p, sizeof(p)); buffer += sizeof(p); }
+      else { std::memcpy(buffer, arg.data(), len); buffer += len; }""")]),
+ dict(name="c04-map-count-missing-in-size", ids=["C04"], rule="C04.R1", subs=[("std/Map.h", "    size_t total_size{sizeof(size_t)};\n", "    size_t total_size{0};\n")]),
+ dict(name="c04-chararray-copies-N-plus-one", ids=["C04"], rule="C04.R1", subs=[(CDC, "      size_t len = detail::safe_strnlen(arg, N) + 1u;", "      size_t len = detail::safe_strnlen(arg, N) + 2u;")]),
 ]
